@@ -10,6 +10,8 @@ abbrev Bytes := List UInt8
 namespace Bytes
 
 def ofString (s : String) : Bytes := s.toUTF8.toList
+/-- ASCII literal (each `Char` truncated to a byte); reduces under `decide`, unlike `ofString` -/
+def asc (s : String) : Bytes := s.toList.map (fun c => UInt8.ofNat c.toNat)
 def hasPrefix (p s : Bytes) : Bool := p.isPrefixOf s
 
 /-! ## split / join -/
